@@ -341,7 +341,49 @@ def build(active_known=frozenset()):
             c.replay(lambda m, ctx, ob: SR_REPLAY)
             c.replay_without_model = True
     add_prefix_readers(pack)
+    pack.extra.append(located_prefix_readers)
     return pack
+
+
+def located_prefix_readers(tier, seed):
+    """The span tagging itself (_with_loc) is proved above; what is decided here, by enumeration over the readers of the
+    one-character prefixes, is that each reader which *builds a list form* from its text - 'x, @x, ~x, #'x, #(...) - is
+    wrapped by that tagger, so that the form it returns carries the span of its own text like every other collection."""
+    import inspect
+    import os
+
+    from basilisp.lang import reader as rd
+    from pyvc.run import REPLAY_DIR, run_snippet
+
+    builders = {"'x": rd._read_quoted, "@x": rd._read_deref, "~x": rd._read_unquote, "#'x": rd._read_var_macro, "#(...)": rd._read_function}
+    missing = [k_ for k_, fn in builders.items() if getattr(getattr(fn, "__code__", None), "co_name", "") != "with_lineno_and_col"]  # (_with_loc's wrapper)
+    rec = {"name": "every prefix reader that builds a list form ('x, @x, ~x, #'x, #(...)) is wrapped by the location tagger" + (f" [not wrapped: {', '.join(missing)}]" if missing else ""),
+           "kind": "located-readers", "verdict": "refuted" if missing else "proved", "backend": "enumeration", "time_s": 0.0, "line": 0}
+    if missing:
+        p_ = os.path.join(REPLAY_DIR, "C16", "located_prefix_readers.py")
+        okr, outp = run_snippet("# replay for property C16\n# failed obligation: " + rec["name"] + "\n" + PREFIX_LOC_REPLAY, p_, timeout=120)
+        rec.update(replay=p_, reproduced=okr, replay_output=outp[-1500:], model={"missing": missing})
+    return [{"key": "located-readers:basilisp.lang.reader", "file": "src/basilisp/lang/reader.py", "lines": [0, 0], "error": None, "obligations": [rec], "extra": True, "time_s": 0.0}]
+
+
+PREFIX_LOC_REPLAY = r'''
+from basilisp.lang import reader, runtime as rt, symbol as sym
+rt.Var.intern(rt.Namespace.get_or_create(sym.symbol(rt.CORE_NS)), sym.symbol(rt.NS_VAR_NAME), rt.Namespace.get_or_create(sym.symbol("c16-loc-replay")), dynamic=True)
+K = (reader.READER_LINE_KW, reader.READER_COL_KW, reader.READER_END_LINE_KW, reader.READER_END_COL_KW)
+bad = []
+for text in ("  'x", "  @x", "  ~x", "  #'x", "  #(f %)", "`(a ~b)"):
+    form = list(reader.read_str(text))[0]
+    if text.startswith("`"):
+        continue
+    m = getattr(form, "meta", None)
+    if m is None or any(m.val_at(k_) is None for k_ in K):
+        bad.append("%r reads as %s without a location" % (text, form))
+    elif (m.val_at(K[1]), m.val_at(K[3])) != (2, len(text)):
+        bad.append("%r: the span of %s is columns %s-%s, expected 2-%d" % (text, form, m.val_at(K[1]), m.val_at(K[3]), len(text)))
+for line in bad:
+    print(line)
+print("REPRODUCED" if bad else "not reproduced")
+'''
 
 
 # ----------------------------------------------------------------------------- prefix readers: "a form is still owed"
